@@ -384,6 +384,22 @@ def expand(case):
         if case['variant'] == 'fifo':
             ops = [[o[0], case.get('unit', 1), o[2]] if o[0] == 'reply' else o for o in ops]
         return dict(kind='hist', variant=case['variant'], unit=case.get('unit', 1), ops=ops, join=[])
+    if case.get('kind') == 'wrap-pipeline':
+        # n answered requests (one outstanding at a time), then k requests pipelined ACROSS the 16-bit wrap, answered in
+        # reverse order: nobody is outstanding for 65536 executes, so every clause of the property applies in full
+        n, k = case.get('n', 65533), case.get('k', 5)
+        ops = [['made']]
+        for i in range(n):
+            ops.append(['exec', None])
+            ops.append(['reply', (i + 1) & 0xFFFF, i & 0xFFFF])
+        for _ in range(k):
+            ops.append(['exec', None])
+        for j in reversed(range(k)):
+            ops.append(['reply', (n + j + 1) & 0xFFFF, 7000 + j])
+        ops += [list(o) for o in case.get('tail', [])]
+        if case['variant'] == 'fifo':
+            ops = [[o[0], case.get('unit', 1), o[2]] if o[0] == 'reply' else o for o in ops]
+        return dict(kind='hist', variant=case['variant'], unit=case.get('unit', 1), ops=ops, join=[])
     if case.get('proto') == 'udp' and (case['ops'][:1] != [['made']] or any(o[0] in ('made', 'lost') for o in case['ops'][1:])):
         raise ValueError('a udp history is ["made"] followed by exec/reply operations only')
     return case
@@ -643,6 +659,11 @@ def run(ctx):
     for n in (300, 1000) if ctx.quick else (300, 1000, 5000, 40000, 65535):
         wraps.append(dict(kind='wrap', variant='dict', n=n, leave_last=True, first={'err': {}}, tag='long-lived',
                           tail=[['reply', 1, 9], ['reply', 1, 10], ['lost']]))
+    # pipelining across the wrap (no request is long-lived)
+    wraps.append(dict(kind='wrap-pipeline', variant='dict', n=65533, k=5, tail=[['exec', None], ['lost']]))
+    if not ctx.quick:
+        wraps.append(dict(kind='wrap-pipeline', variant='dict', n=65535, k=3))
+        wraps.append(dict(kind='wrap-pipeline', variant='dict', n=65530, k=12, tail=[['lost'], ['exec', None]]))
     for w in wraps:
         if ctx.time_left() > 15:
             check_cases(ctx, rep, [w])
